@@ -163,7 +163,9 @@ NextGen == /\ Len(sched) < Depth
                 /\ I_Step(d, o)
                 /\ sched' = Append(sched, Ent(d, o, "call"))
 SpecGen == InitI /\ [][NextGen]_vars
-Emit == Len(sched) < Depth \/ PrintT(<<"WZCASE", ToJson(sched)>>)
+\* a schedule in which only one document acts says nothing about isolation
+AllStarted == \A d \in Docs : Started(d)
+Emit == Len(sched) < Depth \/ ~AllStarted \/ PrintT(<<"WZCASE", ToJson(sched)>>)
 
 NextGenSub ==
   \E d \in Docs :
@@ -177,7 +179,7 @@ Complete == Calls = Depth /\ \A d \in Docs : IdleD(d)
 \* sequential leaks are covered by SpecGen; here only the schedules are emitted in which the
 \* as-built model predicts a defect that needs an interleaving inside a call: a duplicate id
 Bad == ~Inv_UniqueIds
-EmitSub == ~(Complete /\ Bad) \/ PrintT(<<"WZCASE", ToJson(sched)>>)
+EmitSub == ~(Complete /\ Bad /\ AllStarted) \/ PrintT(<<"WZCASE", ToJson(sched)>>)
 \* emitted regardless of the model's prediction (used for simulation of long schedules)
-EmitSubAll == ~Complete \/ PrintT(<<"WZCASE", ToJson(sched)>>)
+EmitSubAll == ~(Complete /\ AllStarted) \/ PrintT(<<"WZCASE", ToJson(sched)>>)
 =============================================================================
